@@ -4,7 +4,7 @@ CONSTANTS
   Hosts <- HostsSmall
   Paths <- PathsSmall
   Names = {"n"}
-  DomKinds <- KindsSmall
+  DomKinds <- KindsTiny
   MaxAges <- MaxAgesFull
   Expiries <- ExpiriesNone
   Schemes = {"http", "https"}
